@@ -272,6 +272,14 @@ def discharge(facts, s):
             return None
         if 'k' in a and b is not None and 'k' in b and a['k'].get('v') is not None and b['k'].get('v') is not None:
             return 'both operands constant'
+        if b is not None:
+            ka_, kb_ = expr_key(body, a), expr_key(body, b)
+            if re.fullmatch(r'-?\d+', ka_) and re.fullmatch(r'-?\d+', kb_):
+                va, vb = int(ka_), int(kb_)
+                tb_ = _ty_bits(body, a) or _ty_bits(body, b) or 8
+                res = {'Add': va + vb, 'Sub': va - vb, 'Mul': va * vb}.get(op)
+                if res is not None and 0 <= res < (1 << tb_):
+                    return f'constant operands ({va} {op} {vb})'
         if op == 'Add' or op == 'Mul':
             ba, bb_ = max_bits(body, a), max_bits(body, b)
             tb = _ty_bits(body, a) or _ty_bits(body, b)
